@@ -104,6 +104,11 @@ func classifyAs(day int64, ts []int64, tl tolerances, reading int) string {
 	if first >= day+tl.pm || last+gap <= dayEnd-tl.pm {
 		return "partial"
 	}
+	// a day whose first block lies more than the whole tolerance after midnight is not covered from its start,
+	// whether the tolerance is read per side or as the total slack of the day
+	if tl.c > 0 && first > day+tl.c {
+		return "partial"
+	}
 	return "unclear"
 }
 
@@ -410,19 +415,27 @@ func drawDayTs(t *rapid.T, label string, day int64, cls string, tl tolerances, o
 		if day+tl.pm <= dayEnd-tl.pm-blockSec {
 			shapes = append(shapes, "middle-only")
 		}
+		if tl.c > 0 && 2*tl.c < tl.pm {
+			shapes = append(shapes, "barely-late-start")
+		}
 		shape = rapid.SampledFrom(shapes).Draw(t, label+".shape")
 		lo, hi := day, dayEnd
 		if shape != "early-end" {
 			lo = day + tl.pm
 		}
-		if shape != "late-start" {
+		if shape == "barely-late-start" {
+			// the first block lies between one and two tolerances after midnight, the day is covered to its end
+			lo = drawTsIn(t, label+".first", day, day+tl.c+1, day+2*tl.c, other)
+			set[lo], set[day+287*blockSec], set[day+286*blockSec] = true, true, true
+		}
+		if shape != "late-start" && shape != "barely-late-start" {
 			hi = dayEnd - tl.pm - blockSec
 		}
 		n := rapid.IntRange(1, 5).Draw(t, label+".nblocks")
 		for i := 0; i < n; i++ {
 			set[drawTsIn(t, fmt.Sprintf("%s.b%d", label, i), day, lo, hi, other)] = true
 		}
-		if shape != "late-start" {
+		if shape != "late-start" && shape != "barely-late-start" {
 			// keep the tail regular enough that "ends early" holds for every reading of the block interval
 			l := sortedSet(set)
 			if len(l) > 1 {
@@ -501,6 +514,7 @@ type mergeCase struct {
 	SrcEnc    encoders.Type
 	DstEnc    encoders.Type
 	CLI       bool // the merges are run through the gpdb command (cmd/gpdb/cmd/merge.go) instead of the library call
+	NoTolFlag bool // command route with the documented default tolerance of 150 s: --complete-tolerance is not given
 }
 
 var clsGen = rapid.SampledFrom([]string{"absent", "partial", "partial", "complete", "complete"})
@@ -512,6 +526,10 @@ func drawCase(t *rapid.T, zones []string) *mergeCase {
 	c.Tol = tolOf(rapid.SampledFrom([]int64{0, 0, -60, 150, 150, 300, 3600, 21600}).Draw(t, "tolerance"))
 	c.Overwrite = rapid.Bool().Draw(t, "overwrite")
 	c.CLI = rapid.IntRange(0, 3).Draw(t, "via-command") == 0
+	if c.CLI && rapid.IntRange(0, 2).Draw(t, "command-default-tolerance") == 0 {
+		// the command's documented default (150 s) by not giving the flag at all
+		c.Tol, c.NoTolFlag = tolOf(150), true
+	}
 	c.DryFirst = rapid.IntRange(0, 2).Draw(t, "dry-run-first") == 0
 	d0 := rapid.IntRange(0, len(gen.DefaultDays)-3).Draw(t, "day0")
 	c.Days = gen.DefaultDays[d0 : d0+3]
@@ -624,7 +642,7 @@ func (c *mergeCase) optionText() string {
 	if c.Request != nil {
 		req = strings.Join(c.Request, ",")
 	}
-	return fmt.Sprintf("TZ=%s ifaces=%s overwrite=%v tolerance=%s dry-run-first=%v destination-exists=%v encoders=%v/%v via-command=%v", c.TZ, req, c.Overwrite, c.Tol.display, c.DryFirst, c.DstExists, c.SrcEnc, c.DstEnc, c.CLI)
+	return fmt.Sprintf("TZ=%s ifaces=%s overwrite=%v tolerance=%s dry-run-first=%v destination-exists=%v encoders=%v/%v via-command=%v tolerance-flag-omitted=%v", c.TZ, req, c.Overwrite, c.Tol.display, c.DryFirst, c.DstExists, c.SrcEnc, c.DstEnc, c.CLI, c.NoTolFlag)
 }
 
 func (c *mergeCase) describe() string {
@@ -949,7 +967,10 @@ var summaryLine = regexp.MustCompile(`(?m)^(Interfaces processed|Days copied|Day
 // runMergeCLI runs `gpdb merge SRC DST` (the built command) with the flags the case translates to and reads
 // the summary it prints.
 func runMergeCLI(src, dst string, c *mergeCase, dry bool) (sum goDB.MergeSummary, err error) {
-	args := []string{"merge", src, dst, fmt.Sprintf("--complete-tolerance=%ds", c.Tol.opt)}
+	args := []string{"merge", src, dst}
+	if !c.NoTolFlag {
+		args = append(args, fmt.Sprintf("--complete-tolerance=%ds", c.Tol.opt))
+	}
 	if len(c.Request) > 0 {
 		args = append(args, "--iface="+strings.Join(c.Request, ","))
 	}
@@ -1133,6 +1154,9 @@ func TestC24Merge(t *testing.T) {
 		cls := []string{"tz:" + c.TZ, "tolerance:" + c.Tol.display, "select:" + c.SelKind, fmt.Sprintf("overwrite:%v", c.Overwrite)}
 		if c.CLI {
 			cls = append(cls, "route:gpdb-merge-command")
+		}
+		if c.NoTolFlag {
+			cls = append(cls, "route:gpdb-merge-command:default-tolerance")
 		}
 		if c.DryFirst {
 			cls = append(cls, "dry-run-first")
